@@ -94,6 +94,7 @@ impl OperationControl for Sequence {
                                     next_operation,
                                     flags.is_case_independent(),
                                     !repeat_operation.greedy(),
+                                    flags.is_multi_line(),
                                 ) {
                                     return Operation::from(UnambiguousRepeat::new(
                                         repeated_operation.clone(),
